@@ -235,8 +235,19 @@ class Executor(Evaluator):
 
     OPAQUE_CALLS = ("function_from_address", "build_function_address_list", "get_function_addresses")
 
+    def env_name(self, node):
+        f = node.func
+        try:
+            name = ast.unparse(f)
+        except Exception:
+            return None
+        env = getattr(self.cur_contract, "extra", {}).get("env", {}) if self.cur_contract else {}
+        return name if name in env and self.module is self.fi.module else None
+
     def is_user_call(self, node, st):
         f = node.func
+        if not st.spec and self.env_name(node):
+            return True
         if isinstance(f, ast.Name) and f.id in self.OPAQUE_CALLS:
             return False
         if isinstance(f, ast.Name):
@@ -290,6 +301,11 @@ class Executor(Evaluator):
     def call(self, node, st):
         if id(node) in self._memo:
             return self._memo[id(node)]
+        if not st.spec and self.env_name(node):
+            res = self.call_multi(node, st)
+            if len(res) != 1:
+                raise Unsupported(f"environment call with several outcomes inside an expression (line {self.line})")
+            return res[0][1]
         f = node.func
         args = node.args
         # contract language builtins
@@ -444,6 +460,13 @@ class Executor(Evaluator):
 
     def call_multi(self, node, st):
         """execute a user-level call: list of (state, value)"""
+        en = self.env_name(node)
+        if en and not st.spec:
+            self.line = node.lineno
+            handler = self.cur_contract.extra["env"][en]
+            args = [self.eval(a, st) for a in node.args]
+            out = handler(self, st, node, args)
+            return out if isinstance(out, list) else [(st, out)]
         if not (isinstance(node.func, ast.Name) and self.is_user_call(node, st)):
             return [(st, self.eval(node, st))]
         kind, target = self.resolve_callee(node, st)
